@@ -97,6 +97,7 @@ class State:
         self.written = set()
         self.ghost = {"SLEPT": Val("Real", z3.RealVal(0))}
         self.suspend_heap = None
+        self.spec_side = []
         self.suspend_ghost = None
         self.label = label
         self.notes = []
@@ -176,8 +177,8 @@ class State:
 
     def cls_is(self, ref, clsname):
         """dynamic class of ref is clsname or a (declared) subclass"""
-        ids = [REG.get(n).cid for n in REG.subclass_names(clsname) if not REG.get(n).abstract]
         kd = REG.get(clsname)
+        ids = [REG.get(n).cid for n in REG.subclass_names(clsname) if not REG.get(n).abstract]
         if kd.cid not in ids and not kd.abstract:
             ids.append(kd.cid)
         if not ids:
